@@ -927,11 +927,36 @@ def emit_trace(res):
     return "\n".join(lines)+"\n"
 
 
+FV_PINS = os.path.join(os.path.dirname(os.path.abspath(__file__)), "expected_fv.json")
+
+
+def check_fv(defs):
+    """The generated definitions take their free C variables as POSITIONAL parameters (sorted by name), and the
+    theorems apply them positionally: a C expression that suddenly mentions another variable of the same kind
+    (`skipp` for `skip`) would be alpha-equivalent and slip through.  The names are therefore pinned
+    (tools/expected_fv.json, written once from the tree on which the theorems were proved)."""
+    import json
+    pins = json.load(open(FV_PINS)) if os.path.exists(FV_PINS) else None
+    if os.environ.get("VERIF_WRITE_FV_PINS") == "1":
+        pins = pins or {}
+        for name, fv, e in defs:
+            pins[name] = list(fv)
+        json.dump(pins, open(FV_PINS, "w"), indent=1, sort_keys=True)
+        return
+    if pins is None:
+        raise TranslateError("tools/expected_fv.json is missing")
+    for name, fv, e in defs:
+        if name not in pins:
+            raise TranslateError("definition %s has no pinned variable list" % name)
+        if list(fv) != pins[name]:
+            raise TranslateError("%s: free variables %s, expected %s" % (name, list(fv), pins[name]))
+
+
 def coq_str_list(xs):
     return "[" + "; ".join('"%s"' % x for x in xs) + "]"
 
 
-def main():
+def _main():
     outdir = sys.argv[1] if len(sys.argv) > 1 else "/verif/coq/gen"
     try:
         text = emit_trace(analyse_trace())
@@ -1000,6 +1025,7 @@ def main():
         sys.exit(2)
     lines = ["(* GENERATED by tools/translate_c.py from src/DTAIDistanceC/DTAIDistanceC/dd_dtw.c -- do not edit *)",
              "From Coq Require Import ZArith.", "Open Scope Z_scope.", ""]
+    check_fv(defs)
     for name, fv, e in defs:
         lines.append("Definition %s %s : Z := %s." % (name, " ".join("(%s : Z)" % v for v in fv), e))
     text = "\n".join(lines) + "\n"
@@ -1014,6 +1040,7 @@ def main():
         sys.exit(2)
     lines = ["(* GENERATED by tools/translate_c.py from src/DTAIDistanceC/DTAIDistanceC/dd_dtw.c -- do not edit *)",
              "From Coq Require Import ZArith Bool.", "Open Scope Z_scope.", ""]
+    check_fv(defs)
     for name, fv, e in defs:
         lines.append("Definition %s %s : Z := %s." % (name, " ".join("(%s : Z)" % v for v in fv), e))
     text = "\n".join(lines) + "\n"
@@ -1028,6 +1055,7 @@ def main():
         sys.exit(2)
     lines = ["(* GENERATED by tools/translate_c.py from src/DTAIDistanceC/DTAIDistanceC/dd_dtw.c -- do not edit *)",
              "From Coq Require Import ZArith Bool.", "Open Scope Z_scope.", ""]
+    check_fv(defs)
     for name, fv, e in defs:
         lines.append("Definition %s %s : Z := %s." % (name, " ".join("(%s : Z)" % v for v in fv), e))
     text = "\n".join(lines) + "\n"
@@ -1042,6 +1070,7 @@ def main():
         sys.exit(2)
     lines = ["(* GENERATED by tools/translate_c.py from src/DTAIDistanceC/DTAIDistanceC/dd_dtw.c -- do not edit *)",
              "From Coq Require Import ZArith Bool.", "Open Scope Z_scope.", ""]
+    check_fv(defs)
     for name, fv, e in defs:
         lines.append("Definition %s %s : Z := %s." % (name, " ".join("(%s : Z)" % v for v in fv), e))
     text = "\n".join(lines) + "\n"
@@ -1056,6 +1085,7 @@ def main():
         sys.exit(2)
     lines = ["(* GENERATED by tools/translate_c.py from %s -- do not edit *)" % SRC,
              "From Coq Require Import ZArith Bool.", "Open Scope Z_scope.", ""]
+    check_fv(defs)
     for name, fv, e in defs:
         lines.append("Definition %s %s : Z := %s." % (name, " ".join("(%s : Z)" % v for v in fv), e))
     text = "\n".join(lines) + "\n"
@@ -1080,6 +1110,14 @@ def main():
     if old != text:
         open(p, "w").write(text)
     print("ok")
+
+
+def main():
+    try:
+        _main()
+    except (TranslateError, OSError) as exc:
+        print("TRANSLATE-ERROR: translate_c: %s" % exc)
+        sys.exit(2)
 
 
 if __name__ == "__main__":
